@@ -109,6 +109,7 @@ _k('rk_tup', 'rec')(lambda r: (r.k, 'p%d' % r.k))
 _k('rv_mod3', 'rec')(lambda r: r.v % 3)
 _k('rv_div2big', 'rec')(lambda r: 10 ** 20 + r.v // 2)
 _k('rv_tup', 'rec')(lambda r: (r.v % 2, str(r.v % 2)))
+_k('rv_flt', 'rec')(lambda r: (r.v % 3) / 2)
 _k('rn_div3', 'rec')(lambda r: 'run-%d' % (r.n // 3))
 _k('pk0', 'pair')(lambda p: p[0] % 3)
 _k('fk', 'float')(lambda v: int(v) % 3)
